@@ -632,7 +632,17 @@ class Sym:
     def __int__(s):
         if s.isint:
             return ENGINE.concretize(s.e)
-        raise Unsupported("int() of a symbolic real")
+        # truncation toward zero, then solver-driven case split over the feasible integer values
+        return ENGINE.concretize(z3.If(s.e >= 0, z3.ToInt(s.e), -z3.ToInt(-s.e)))
+
+    def __trunc__(s):
+        return s if s.isint else Sym(z3.If(s.e >= 0, z3.ToInt(s.e), -z3.ToInt(-s.e)))
+
+    def __floor__(s):
+        return s if s.isint else Sym(z3.ToInt(s.e))
+
+    def __ceil__(s):
+        return s if s.isint else Sym(-z3.ToInt(-s.e))
 
     def __float__(s):
         v = ENGINE.unique_value(s.e)
@@ -647,7 +657,9 @@ class Sym:
             return s
         k = z3.Int(f"round!{next(ENGINE.fresh)}")
         x = toz(s, True)
-        ENGINE.add(2 * (z3.ToReal(k) - x) <= 1, 2 * (x - z3.ToReal(k)) <= 1)
+        c1, c2 = 2 * (z3.ToReal(k) - x) <= 1, 2 * (x - z3.ToReal(k)) <= 1
+        ENGINE.add(c1, c2)
+        ENGINE.literals.extend([c1, c2])      # robust models then stay away from exact ties
         return Sym(k)
 
     def __hash__(s):
